@@ -355,6 +355,56 @@ def r_cmd_shapes(ctx):
             ctx.violation('%s:command-drops-arguments' % wrap.qualname, wrap.loc(chain),
                           'with %s positional and %s keyword arguments the call is packed as `%s`: the %s are silently dropped and every replica runs the method with defaults'
                           % ('some' if bad[0] else 'no', 'some' if bad[1] else 'no', bad[2], 'keyword arguments' if bad[1] and 'kwargs' not in (bad[2] or '') else 'positional arguments'), instance=inst)
+    # which unpacking the dispatcher chooses for each packed size: evaluated for the sizes the decorator emits
+    inst = 'the dispatcher unpacks a command of n components into n names'
+    cvar = None
+    for n in U.walk_no_nested(d.node):
+        if isinstance(n, ast.Assign) and isinstance(n.targets[0], ast.Tuple) and isinstance(n.value, ast.Name):
+            cvar = n.value.id
+    dchain = None
+    for n in U.walk_no_nested(d.node):
+        if isinstance(n, ast.If) and cvar and any(isinstance(x, ast.Call) and isinstance(x.func, ast.Name) and x.func.id == 'isinstance' and x.args and unparse(x.args[0]) == cvar
+                                                  for x in ast.walk(n.test)):
+            dchain = n
+            break
+    if dchain is None or cvar is None:
+        ctx.unproven(inst, d.loc(), 'the dispatcher does not branch on isinstance(<command>, tuple)')
+    else:
+        arms = []
+        cur = dchain
+        while True:
+            arms.append((cur.test, cur.body))
+            if len(cur.orelse) == 1 and isinstance(cur.orelse[0], ast.If):
+                cur = cur.orelse[0]
+                continue
+            arms.append((None, cur.orelse))
+            break
+        bad = None
+        n_eval = 0
+        try:
+            for size in sorted(shapes_set):
+                env = {'isinstance(%s, tuple)' % cvar: size > 1, 'len(%s)' % cvar: size}
+                chosen = None
+                for test, body in arms:
+                    n_eval += 1
+                    if test is None or U.eval_arith(test, env):
+                        chosen = body
+                        break
+                arity = None
+                for st_ in chosen or []:
+                    if isinstance(st_, ast.Assign) and isinstance(st_.value, ast.Name) and st_.value.id == cvar:
+                        arity = len(st_.targets[0].elts) if isinstance(st_.targets[0], ast.Tuple) else 1
+                if arity != size and bad is None:
+                    bad = (size, arity)
+        except AnalysisError as e:
+            ctx.unproven(inst, d.loc(dchain), str(e))
+            bad = 0
+        ctx.tick(n_eval)
+        if bad is None:
+            ctx.ok(inst, d.loc(dchain), 'sizes %s each reach the unpacking of the same arity' % sorted(shapes_set))
+        elif bad != 0:
+            ctx.violation('%s:command-unpacked-with-wrong-arity' % d.qualname, d.loc(dchain),
+                          'a command packed with %d component(s) reaches an unpacking into %s name(s): applying it raises on every node' % (bad[0], bad[1]), instance=inst)
     # component order: id first, args second, kwargs third on both sides
     inst = 'component order (id, args, kwargs) agrees'
     ctx.tick()
